@@ -54,10 +54,14 @@ IsSNaNW(t, w) == TypeIsFloat(t) /\ Len(w) = TypeLimbs(t) /\
 NaNFamily == {"fmin", "fmax", "fmin3", "fmax3", "fmin4", "fmax4", "fclamp"}
 SkipComp(f, t, args, i) == f \in NaNFamily /\ \E k \in 1..Len(args) : IsSNaNW(t, Comp(args[k], i))
 
+\* which of +0 / -0 a minimum or maximum of the two returns is not fixed by IEEE-754 (it depends on operand order)
+MinMaxFamily == {"min", "max", "fmin", "fmax", "clamp", "fclamp", "clampraw", "min3", "max3", "fmin3", "fmax3", "min4", "max4", "fmin4", "fmax4", "texClamp"}
+BothZero(t, rw, sw) == TypeIsFloat(t) /\ Len(rw) = TypeLimbs(t) /\ Len(sw) = TypeLimbs(t) /\ IsZero(TypeFmt(t), Fields(TypeFmt(t), rw)) /\ IsZero(TypeFmt(t), Fields(TypeFmt(t), sw))
+
 LiftOK(f, t, q, args, rws, sws) ==
     /\ Len(rws) = Len(sws)
     /\ \A i \in {j \in 1..Len(rws) : ~SkipComp(f, t, args, j)} :
-         CASE ClassOf(f, t, q) = "EXACT" -> SameBitsOrBothNaN(t, rws[i], sws[i])
+         CASE ClassOf(f, t, q) = "EXACT" -> SameBitsOrBothNaN(t, rws[i], sws[i]) \/ (f \in MinMaxFamily /\ BothZero(t, rws[i], sws[i]))
            [] ClassOf(f, t, q) = "COMPOSITE" -> IF TypeIsFloat(t) THEN CompositeOK(t, args, i, rws[i], sws[i]) ELSE rws[i] = sws[i]
            [] OTHER -> LowpRsqrtOK(rws[i], sws[i])
 =============================================================================
